@@ -48,8 +48,7 @@ def specC02 (bin : List Nat) (pf : Int) (tracks : List (List Event)) : String :=
             | none => s!"holds=0 why=track-{i}-is-not-a-legal-event-stream"
             | some l =>
               let exp := expected 0 (normalize es) ++ [eotMsg]
-              if !deltasInRange l then s!"holds=0 why=track-{i}-delta-out-of-range"
-              else if l == exp then go (i+1) bs ess
+              if l == exp then go (i+1) bs ess
               else s!"holds=0 why=track-{i}-" ++ firstDiff l exp
           else go (i+1) bs ess
         | _, _ => "holds=1"
